@@ -15,7 +15,7 @@ ok = ev["demo_unchanged_exit"] == 0 and "208 passed" in ev["suite_with_patch"] a
 caught = {p: c for p, c in ev["checks"].items() if c["exit"] == 1}
 errors = {p: c for p, c in ev["checks"].items() if c["exit"] not in (0, 1)}
 for f in ("patch.diff", "demo.py", "notes.md"):
-    if os.path.exists(os.path.join(src, f)):
+    if os.path.exists(os.path.join(src, f)) and os.path.abspath(src) != os.path.abspath(out):
         shutil.copy(os.path.join(src, f), os.path.join(out, f))
 meta = {
     "property": prop,
